@@ -343,7 +343,7 @@ func (m *lMachine) genOp(rt *rapid.T, i int) lOp {
 	lbl := func(s string) string { return fmt.Sprintf("%s_%d", s, i) }
 	kinds := []string{"limit", "limit", "limit", "limit", "market", "mm", "cancel", "cancelall", "cancelmm", "deposit", "withdraw", "farm", "unfarm", "depositfarm", "unfarmwithdraw", "block", "block", "block", "newpool"}
 	if m.prop == "C19" {
-		kinds = []string{"gauge", "gauge", "gauge", "farm", "farm", "depositfarm", "depositfarm", "depositfarm", "unfarm", "deposit", "withdraw", "epoch", "epoch", "epoch", "epoch", "epoch", "block", "limit", "limit", "oprice", "newpool"}
+		kinds = []string{"gauge", "gauge", "gauge", "farm", "farm", "depositfarm", "depositfarm", "depositfarm", "unfarm", "deposit", "withdraw", "epoch", "epoch", "epoch", "epoch", "epoch", "block", "limit", "limit", "oprice", "newpool", "distr"}
 	} else if m.prop == "C04" {
 		kinds = append(kinds, "deposit", "withdraw", "farm", "unfarm", "block")
 	} else {
@@ -356,7 +356,7 @@ func (m *lMachine) genOp(rt *rapid.T, i int) lOp {
 	}
 	amounts := []string{"100", "101", "1000", "12345", "1000000", "999999999", "1000000000000", "1000000000000000000000"}
 	switch k {
-	case "epoch", "oprice", "gauge":
+	case "epoch", "oprice", "gauge", "distr":
 		return m.c19GenOp(rt, i, k)
 	case "block":
 		op.Dt = rapid.SampledFrom([]int64{5, 5, 6, 60, 3600, 90000}).Draw(rt, lbl("dt"))
@@ -436,7 +436,7 @@ func (m *lMachine) apply(i int, op lOp) {
 	case "block":
 		m.block(i, op.Dt)
 		return
-	case "oprice", "gauge":
+	case "oprice", "gauge", "distr":
 		m.c19Apply(i, op)
 	case "limit", "market":
 		m.placeOrder(i, op)
